@@ -18,6 +18,14 @@ Theorem C09_pack_order :
   (forall s l o, s < 65536 -> l <= 65534 -> setout (enc s l o) = enc s l true)%N.
 Proof. exact (conj dec_enc (conj enc_lt (conj incpath_enc (conj incscore_enc setout_enc)))). Qed.
 
+(** The side condition "score < 65535" is necessary: one more match carries out of the 16-bit score field into the
+    in-band flag and the cell becomes an "out" cell with score 0. This is the mechanism of the recorded finding
+    lcs-16bit-fields (two identical sequences of 65540 symbols are answered "not found" by the real code, replayed on
+    every run); C09_band_exact / C09_egf_exact therefore carry the side condition |a| + |b| <= 30000. *)
+Theorem C09_score_field_overflow_refuted : exists s l, (s = 65535 /\ l <= 65534 /\
+  incscore (enc s l false) <> enc (s + 1) l false /\ dec (incscore (enc s l false)) = (0, l, true))%N.
+Proof. exact score_field_overflow. Qed.
+
 (** The literals of the model are the constants of the build under test: wsize, dwsize, the masks derived from them,
     the cells _empty, _out, _notavail, and encodeValues / decodeValues on sample points, all dumped from the current
     build into Gen/Tables.v before every run (re-proved on every run). *)
@@ -201,6 +209,7 @@ Proof.
 Qed.
 
 Print Assumptions C09_pack_order.
+Print Assumptions C09_score_field_overflow_refuted.
 Print Assumptions C09_pack_consts.
 Print Assumptions C09_iupac_compat.
 Print Assumptions C09_iupac_orig_refuted.
